@@ -27,9 +27,11 @@ BOUNDS = {
     'quick': 'UTIM/DATE/TIME + 1..3 further channels (WAC, HVMX, PIT1): every declaration order x 4 separator styles x every '
              'header (UTIM DATE TIME + every ordered non-empty subset) with one row; 2 orders x every header x 0..3 rows x all 12 '
              'date forms (12, 144, 144 combinations for 1, 2, 3 rows); corruptions: 24 (k=1), 12 (k=2), 6 (k=3) declaration '
-             'orders x 3 separator styles x every header x 0..3 rows x every single-line corruption of every line',
+             'orders x 3 separator styles x every header x 0..3 rows x every single-line corruption of every line; '
+             'part dates: one-row texts over years 1955..2050 (every two digit year but 51..54) x 12 months x days {1, 9, 28, 29, 30, last} '
+             'x 2 spellings x padded / unpadded day (quick: a third of the interior, all of years 00, 50, 55, 99 and of first / last days)',
     'thorough': 'as quick with a second channel pool (ROP, ECDW, GAS), 3 rows in all 1728 date combinations, 4 separator styles '
-                'and 24 / 120 / 60 declaration orders under corruption',
+                'and 24 / 120 / 60 declaration orders under corruption; part dates in full',
 }
 RULE = ('valid texts: product of declaration order, separator style, header subset/order, row count and date spelling as in '
         'the bounds, each once; corrupted texts: for every line of a base text each of delete, duplicate, blank, insert blank, '
@@ -45,7 +47,7 @@ ASSUMPTIONS = [
     'descriptions are compared after whitespace normalisation',
     'can_parse_file: True is required for a valid text with at least one row, False for a text that has to be refused '
     'judging by everything up to the first line after the header; nothing else is required of it',
-    'two digit years 06 and 75 only (the 50/51 pivot is pinned by the unit tests for 50 and 55, not in between)',
+    'two digit years 00..50 (20yy) and 55..99 (19yy); 51..54 are left out (the 50/51 pivot is pinned by the unit tests for 50 and 55, not in between)',
 ]
 LEVEL_TEXT = ('Every text of the stated small scope and every single-line corruption of the corruption bases is executed '
               'against the real parser; within that scope a wrong channel, description, unit, frame count, value, value type, '
@@ -75,7 +77,9 @@ RE_NUMERIC = re.compile(r'^[0-9]+(\.[0-9]+)?$')
 # case descriptor -> model
 # ---------------------------------------------------------------------------------------------
 def date_variant(v):
-    """12 forms: spelling A/B x day (9, 09, 17) x century (2006, 1975)."""
+    """12 forms: spelling A/B x day (9, 09, 17) x century (2006, 1975); or an explicit [year, month, day, spelling, pad]."""
+    if isinstance(v, (list, tuple)):
+        return tuple(v)
     spelling = 'AB'[v % 2]
     form = (v // 2) % 3
     year, month = ((2006, 12), (1975, 2))[(v // 6) % 2]
@@ -94,8 +98,11 @@ def build_model(case):
         h, m, s = TIMES[i % len(TIMES)]
         values = {}
         for c, name in enumerate(others):
-            values[name] = FLOATS[(2 * i + 3 * c + v) % len(FLOATS)]
-        rows.append({'when': datetime.datetime(year, month, day, h, m, s), 'date': (spelling, pad), 'values': values})
+            values[name] = FLOATS[(2 * i + 3 * c + (v if isinstance(v, int) else day)) % len(FLOATS)]
+        row = {'when': datetime.datetime(year, month, day, h, m, s), 'date': (spelling, pad), 'values': values}
+        if not isinstance(v, int):
+            row['utim_when'] = datetime.datetime(2006, 12, 9, h, m, s)   # the Unix time column stays after 1970 whatever the date
+        rows.append(row)
     return {'decls': decls, 'sep': SEPS[case['sep']], 'header': list(case['hdr']), 'rows': rows}
 
 
@@ -420,6 +427,8 @@ def _cor_orders(tier, k):
 def shards(tier):
     dat_ref.selftest()
     out = []
+    for y0 in range(1955, 2051, 8):
+        out.append({'part': 'dates', 'pool': 0, 'k': 1, 'years': [y for y in range(y0, min(y0 + 8, 2051))]})
     for pool in _pools(tier):
         for k in (1, 2, 3):
             if pool == 2 and tier == 'quick' and k == 3:
@@ -498,6 +507,20 @@ def run_shard(shard, tier):
                         _run_valid(res, case, directory if hi == 0 else None)
         finally:
             shutil.rmtree(directory, ignore_errors=True)
+    elif shard['part'] == 'dates':
+        # every calendar date form: each two digit year, each month, first / 28th / 29th / 30th / last day, both spellings
+        import calendar
+        for year in shard['years']:
+            for month in range(1, 13):
+                last = calendar.monthrange(year, month)[1]
+                for day in sorted({1, 9, 28, 29, 30, last} - {d for d in (29, 30) if d > last}):
+                    for spelling in 'AB':
+                        for pad in ((False, True) if day < 10 else (True,)):
+                            if tier == 'quick' and (month + day + year) % 3 and day not in (1, last) and year % 100 not in (0, 50, 55, 99):
+                                continue
+                            _run_valid(res, {'pool': pool, 'decl': list(names), 'sep': 0, 'hdr': hdrs[0],
+                                             'dv': [[year, month, day, spelling, pad]]})
+                            res.count('calendar_dates')
     elif shard['part'] == 'rows':
         for decl in (list(names), list(reversed(names))):
             for hdr in hdrs:
